@@ -234,6 +234,22 @@ type wrun struct {
 	// last durably committed root
 	durRoot   []byte
 	durWeight uint64
+	// scale: every weight handed to the trie is the history's (small) weight times scale, every weight read back is divided
+	// by it (not a multiple: reported as -1).  Owner intervals are then multiples of scale, so the specification's small
+	// numbers decide the owner of every real block; the real numbers exercise the full width of the weight arithmetic
+	// and of its encodings.
+	scale uint64
+}
+
+// sw scales an observed weight down (-1 if it is not a multiple of the scale).
+func (r *wrun) sw(x uint64) int64 {
+	if r.scale <= 1 {
+		return int64(x)
+	}
+	if x%r.scale != 0 {
+		return -1
+	}
+	return int64(x / r.scale)
 }
 
 func (r *wrun) emit(ev map[string]any) {
@@ -274,32 +290,52 @@ func (r *wrun) onWrite(puts map[string][]byte, dels [][]byte, kind string) {
 	r.emit(map[string]any{"op": "w", "kind": kind, "puts": pids, "dels": dids, "rows": rows, "keysOK": keysOK})
 }
 
-// owners observes the complete content of a trie through block proofs.
-func (r *wrun) owners(t *wmpt.WeightedMerkleTrie) (list []any, total uint64, ok bool) {
+// owners observes the complete content of a trie through block proofs.  With scale S > 1 the list has one row per unit q of S
+// blocks: the first, a middle and the last block of the unit must have the same owner, value and weight, and verify.
+func (r *wrun) owners(t *wmpt.WeightedMerkleTrie) (list []any, total int64, ok bool) {
 	ok = true
+	S := r.scale
+	if S == 0 {
+		S = 1
+	}
 	res := Guard(func() string {
-		total = t.Weight()
+		total = r.sw(t.Weight())
 		root := t.Root()
-		for b := uint64(1); b <= total && b <= 64; b++ {
-			key, proof, err := t.GetBlockProof(b)
-			if err != nil {
-				list = append(list, []any{b, -1, "", 0, false, "err"})
-				continue
+		for q := uint64(1); int64(q) <= total && q <= 64; q++ {
+			blocks := []uint64{q}
+			if S > 1 {
+				blocks = []uint64{(q-1)*S + 1, (q-1)*S + 1 + (q*7919)%S, q * S}
 			}
-			idx, known := r.kidx[string(key)]
-			if !known {
-				idx = -2
-			}
-			val, wt := "", uint64(0)
-			if recs, perr := bridge.ParseProof(proof); perr == nil && len(recs) > 0 {
-				if n, nerr := bridge.ParseWNode(recs[len(recs)-1]); nerr == nil && n.Kind == 'V' {
-					val, wt = string(n.Value), n.Weight
+			row := []any(nil)
+			for _, b := range blocks {
+				key, proof, err := t.GetBlockProof(b)
+				if err != nil {
+					row = []any{q, -1, "", 0, false, "err"}
+					break
+				}
+				idx, known := r.kidx[string(key)]
+				if !known {
+					idx = -2
+				}
+				val, wt := "", int64(0)
+				if recs, perr := bridge.ParseProof(proof); perr == nil && len(recs) > 0 {
+					if n, nerr := bridge.ParseWNode(recs[len(recs)-1]); nerr == nil && n.Kind == 'V' {
+						val, wt = string(n.Value), r.sw(n.Weight)
+					}
+				}
+				vt := wmpt.New(nil, nil)
+				h, v, verr := vt.VerifyBlockProof(b, proof)
+				verified := verr == nil && bytes.Equal(h, root) && string(v) == val
+				cur := []any{q, idx, val, wt, verified, "ok"}
+				if row != nil && (row[1] != cur[1] || row[2] != cur[2] || row[3] != cur[3]) {
+					row = []any{q, idx, val, wt, false, "split"}
+					break
+				}
+				if row == nil || !verified {
+					row = cur
 				}
 			}
-			vt := wmpt.New(nil, nil)
-			h, v, verr := vt.VerifyBlockProof(b, proof)
-			verified := verr == nil && bytes.Equal(h, root) && string(v) == val
-			list = append(list, []any{b, idx, val, wt, verified, "ok"})
+			list = append(list, row)
 		}
 		return "ok"
 	})
@@ -348,6 +384,7 @@ func RunWMPT(w *tr.Writer, in *tr.Interner, st *WStats, tid int, h WHist) {
 	w.NextTrace()
 	st.Traces++
 	r := &wrun{w: w, in: in, st: st, tid: tid, kidx: map[string]int{}}
+	r.scale = []uint64{1, 1, 1000, 1 << 20, 1<<33 + 7, 1 << 40}[tid%6]
 	r.keys = UniverseKeys(h.Uni, h.Sub)
 	for i, k := range r.keys {
 		r.kidx[string(k)] = i
@@ -356,7 +393,7 @@ func RunWMPT(w *tr.Writer, in *tr.Interner, st *WStats, tid int, h WHist) {
 	r.db.on = r.onWrite
 	r.t = wmpt.New(nil, r.db)
 	r.durRoot = bridge.EmptyState
-	r.emit(map[string]any{"op": "reset", "nkeys": len(r.keys), "empty": in.ID(bridge.EmptyState), "gmode": h.Mode, "uni": h.Uni})
+	r.emit(map[string]any{"op": "reset", "nkeys": len(r.keys), "empty": in.ID(bridge.EmptyState), "gmode": h.Mode, "uni": h.Uni, "scale": r.scale})
 	st.Modes[h.Mode]++
 	var ckRoot []byte
 	var ckWeight uint64
@@ -371,7 +408,7 @@ func RunWMPT(w *tr.Writer, in *tr.Interner, st *WStats, tid int, h WHist) {
 			}
 			ev["w"] = wt
 			ev["res"] = Guard(func() string {
-				if err := r.t.Update(r.keys[op.K], val, wt); err != nil {
+				if err := r.t.Update(r.keys[op.K], val, wt*r.scale); err != nil {
 					if err == wmpt.ErrNotFound {
 						return "notfound"
 					}
@@ -379,12 +416,12 @@ func RunWMPT(w *tr.Writer, in *tr.Interner, st *WStats, tid int, h WHist) {
 				}
 				return "ok"
 			})
-			ev["weight"] = r.t.Weight()
+			ev["weight"] = r.sw(r.t.Weight())
 			r.emit(ev)
 		case "delete":
 			ev["res"] = Guard(func() string {
 				ch, err := r.t.Delete(r.keys[op.K])
-				ev["change"] = ch
+				ev["change"] = r.sw(ch)
 				if err != nil {
 					if err == wmpt.ErrNotFound {
 						return "notfound"
@@ -396,7 +433,7 @@ func RunWMPT(w *tr.Writer, in *tr.Interner, st *WStats, tid int, h WHist) {
 			if _, ok := ev["change"]; !ok {
 				ev["change"] = 0
 			}
-			ev["weight"] = r.t.Weight()
+			ev["weight"] = r.sw(r.t.Weight())
 			r.emit(ev)
 		case "commit":
 			r.emit(map[string]any{"op": "commitbegin", "level": op.Level})
@@ -415,7 +452,7 @@ func RunWMPT(w *tr.Writer, in *tr.Interner, st *WStats, tid int, h WHist) {
 			// the committed root is read through Root() (the trie is clean after a commit)
 			root := r.t.Root()
 			ev["root"] = in.ID(root)
-			ev["weight"] = r.t.Weight()
+			ev["weight"] = r.sw(r.t.Weight())
 			r.durRoot, r.durWeight = append([]byte(nil), root...), r.t.Weight()
 			r.emit(ev)
 			r.reopen("commit")
@@ -448,7 +485,7 @@ func RunWMPT(w *tr.Writer, in *tr.Interner, st *WStats, tid int, h WHist) {
 			} else {
 				r.t = wmpt.New(wmpt.NewHashNode(root, weight), r.db)
 			}
-			ev["weight"] = r.t.Weight()
+			ev["weight"] = r.sw(r.t.Weight())
 			r.emit(ev)
 		case "readroot":
 			ev["res"] = Guard(func() string { ev["root"] = in.ID(r.t.Root()); return "ok" })
@@ -467,20 +504,20 @@ func RunWMPT(w *tr.Writer, in *tr.Interner, st *WStats, tid int, h WHist) {
 				idx := row[1].(int)
 				if idx >= 0 && !seen[idx] {
 					seen[idx] = true
-					entries = append(entries, bridge.WEntry{Key: r.keys[idx], Value: []byte(row[2].(string)), Weight: row[3].(uint64)})
+					entries = append(entries, bridge.WEntry{Key: r.keys[idx], Value: []byte(row[2].(string)), Weight: uint64(row[3].(int64)) * r.scale})
 				}
 			}
 			wantRoot, wantTotal := bridge.WRoot(entries)
 			ev["owners"], ev["total"], ev["ok"] = list, total, ok
-			ev["rootOK"] = bytes.Equal(wantRoot, r.t.Root()) && wantTotal == total
+			ev["rootOK"] = bytes.Equal(wantRoot, r.t.Root()) && total >= 0 && wantTotal == uint64(total)*r.scale
 			// out-of-range blocks must not be answered with an owner
-			_, _, e0 := r.t.GetBlockProof(total + 1)
+			_, _, e0 := r.t.GetBlockProof(r.t.Weight() + 1)
 			ev["above"] = e0 != nil
 			r.emit(ev)
 		case "saveroot":
 			ev["res"] = Guard(func() string { r.t.SaveRoot(); return "ok" })
 			ckRoot, ckWeight = append([]byte(nil), r.t.Root()...), r.t.Weight()
-			ev["root"], ev["weight"] = in.ID(ckRoot), ckWeight
+			ev["root"], ev["weight"] = in.ID(ckRoot), r.sw(ckWeight)
 			r.emit(ev)
 		case "rollback", "rollbacktrie":
 			r.emit(map[string]any{"op": "rollbackbegin"})
@@ -498,7 +535,7 @@ func RunWMPT(w *tr.Writer, in *tr.Interner, st *WStats, tid int, h WHist) {
 			})
 			st.Rollbacks++
 			ev["root"] = in.ID(r.t.Root())
-			ev["weight"] = r.t.Weight()
+			ev["weight"] = r.sw(r.t.Weight())
 			r.durRoot, r.durWeight = append([]byte(nil), r.t.Root()...), r.t.Weight()
 			r.emit(ev)
 			r.reopen("rollback")
